@@ -2,13 +2,13 @@ SPECIFICATION MCSpec
 CONSTANTS
   Cap = 2
   SegCaps = {2}
-  FixStale = FALSE
-  MaxSets = 4
-  MaxOps = 8
+  FixStale = TRUE
+  MaxSets = 3
+  MaxOps = 6
   MaxFails = 1
-  MaxFaults = 2
-  UseKeys = {"k1", "k2", "k3"}
-  MaxHand = 0
+  MaxFaults = 1
+  MaxHand = 2
+  UseKeys = {"k1", "k2"}
   UseClients = {"c1"}
 INVARIANTS TypeOK
 PROPERTIES StepsOK
